@@ -87,7 +87,8 @@ def catalogue(n, tier):
     hi2 = min(hi, 300)
     vals = ['', 'A', '1', '-1', '1.5', '-.5', '.', '-', 'a', 'A ', '  ', ' A', 'A\x07', 'A\nB', '\xe9', 'A−',
             '20040230', '20040229', '20040101-20040102', '20040101-2004010', '2400', '1230', '123045', '1230456', '12304567',
-            '040229', '990230', '200402291230', '200402292460',
+            '040229', '990230', '200402291230', '200402292460', '20040400', '20040100', '20041301', '20040001', '20040132',
+            '040400', '041301', '21000229', '20000229', '18000101', '17991231', '2400', '2360', '235960', '23595999', '235959999',
             'Z' * max(0, lo - 1), 'Z' * lo, 'Z' * hi2, 'Z' * (hi2 + 1), '9' * max(0, lo - 1), '9' * lo, '9' * hi2, '9' * (hi2 + 1),
             '-' + '9' * hi2, '9' * max(1, hi2 - 1) + '.9', '-' + '9' * (hi2 + 1), 'Z' * max(1, lo) + ' ', 'Z' * max(0, lo - 1) + ' ',
             '<b>', '^', '`', 'a%b', '{x}', '#', '$', '~@', 'A:B', '123456789', '12345678', '1234567890']
@@ -298,6 +299,10 @@ def _composite(a, b, cs, icvn, excluded, acc, fname, de):
         'too-many': used + ['X'],
         'too-many-empty-tail': used + [''],
     }
+    for k in range(1, n):
+        # composite cut off after k components: every required component behind the cut is missing
+        if any(used[:k]):
+            variants['truncated-%d' % k] = used[:k]
     for name, comps in variants.items():
         case = {'file': fname, 'node': mapmodel.path(b), 'composite': name, 'components': comps, 'charset': cs}
         acc.evaluations += 1
@@ -331,7 +336,7 @@ def _composite(a, b, cs, icvn, excluded, acc, fname, de):
             acc.classes['abstained:first-component-of-optional-composite'] += 1
             continue
         acc.nontrivial.add(core.digest(['comp', b.usage, name, n, exp]))
-        acc.classes['composite:' + name] += 1
+        acc.classes['composite:' + name.split('-')[0]] += 1
         if sorted(set(got)) != sorted(set(exp)):
             acc.fail('composite:%s:%s' % (name, b.usage), case, 'composite %s usage %s variant %s %r: reported %r, definition implies %r'
                      % (b.id, b.usage, name, comps, got, exp))
